@@ -246,7 +246,11 @@ func (c c01) lineages(ctx *core.Ctx, cfgs []dbCfg, all bool) {
 			}
 			nwords++
 		}
-		if tUsed < nt {
+		ntHere := nt
+		if cUsed >= 2 && nc > 2 {
+			ntHere = nt - 1 // thorough: histories with a third cycle use one table less
+		}
+		if tUsed < ntHere {
 			for _, o := range topts {
 				words(append(cur, o), tUsed+1, cUsed)
 			}
